@@ -66,7 +66,13 @@ RULE = ('sweep: every BaseException subclass exported by builtins (69 names on 3
         'and mixes), arguments supplied by the Python caller or, for evaluated references, by '
         'bindings; exhaustive sweep signatures: 10 shapes x 6 sites x 3 link shapes x '
         '{TypeError, TypeError subclass with required arguments, KeyError, KeyboardInterrupt}; '
-        'TypeError is over-sampled by the generator. Non-trivial = '
+        'TypeError is over-sampled by the generator. Late rendering: user classes whose '
+        '__str__ reads instance state, or raises TypeError until a field is filled in, with '
+        'that state changed AFTER the exception crossed the configurable(s) -- by a catching '
+        'configurable body (mutation strstate), by a plain non-Gin frame above all '
+        'configurables that re-raises, by the final caller before str() (generated; exhaustive '
+        'sweep late-str: 2 __str__ kinds x 2 class shapes x 4 late-change sets x 6 link '
+        'shapes). Non-trivial = '
         'the original has a public data attribute besides args, or its constructor has required '
         'arguments, or >=2 configurables are on the stack. Distinct = distinct case JSON.')
 ASSUMPTIONS = [
@@ -83,6 +89,16 @@ ASSUMPTIONS = [
     'gin.current_scope_str() occur in str(e2) after the prefix str(e); nothing else of the text '
     'is compared, further "In call to configurable" lines for outer configurables are accepted',
     'only the innermost configurable (the one whose body raised) is required to be named',
+    'the message clause is also checked late, against what the class itself renders for the '
+    'ORIGINAL object at the same moment (str(original) is Gin-independent): at every catching '
+    'body after its changes, in the plain frame, at the caller and after the caller completed the '
+    'exception; the extension must then name every configurable that augmented so far. This '
+    'late comparison is made only while every public attribute reads the same on the original '
+    'and on the caught object (state in the shared __dict__); after a body changed args / a '
+    'C-level field / a slot on the object it caught, which state a rendering shows is not '
+    'decided by the property and the late comparison is skipped (label '
+    'late-message:not-comparable). A class whose __str__ cannot render at the time of the '
+    'crossing must still arrive as the same class',
     'explicit chaining and notes are data of the exception: __cause__ (by identity) and __notes__ '
     'must read at the caller as the raise statement (`raise e from other` / `from None` / plain, '
     'also `raise exc from other` in a re-raising body) left them, and __suppress_context__ must '
@@ -129,6 +145,12 @@ FLOORS = {
     'catch:reraised': 0.05,
     'raiser-repr:braces': 0.02,
     'raise-from': 0.03,
+    'late-message:checked': 0.5,
+    'late:plain-frame': 0.01,
+    'late:caller': 0.01,
+    'user:str-reads-state': (0.1, 'user:generated'),
+    'user:str-needs-field': (0.04, 'user:generated'),
+    'str-state-changed-after-crossing': 0.01,
     'raise-from-None': 0.02,
     'note-added': 0.02,
     'sig:kwonly-none-defaulted': 0.03,
@@ -345,7 +367,8 @@ def _user_spec(draw):
       'post': post,
       'cattrs': [[c, draw(_val)] for c in cnames],
       'props': draw(st.lists(st.sampled_from(PROP_KINDS), max_size=3)),
-      'str': draw(st.sampled_from([None, None, 'const', 'args', 'attr'])),
+      'str': draw(st.sampled_from([None, None, 'const', 'args', 'attr', 'state', 'state',
+                                   'needs'])),
       'repr': draw(st.booleans()),
       'argv': [draw(_val) for _ in range(n)],
       'kwv': draw(_val),
@@ -413,7 +436,11 @@ def render_user(spec):
       body.append(f'    return {expr}')
   if spec['str']:
     expr = {'const': "'custom-str'", 'args': "'U:' + repr(self.args)",
-            'attr': "'U<%r>' % (getattr(self, 'p0', None),)"}[spec['str']]
+            'attr': "'U<%r>' % (getattr(self, 'p0', None),)",
+            # reads instance state that handlers above the configurable may still change
+            'state': "'U<annot=%s>' % (getattr(self, 'annot', '-'),)",
+            # cannot be rendered until somebody has filled in `line` (TypeError while None)
+            'needs': "'UExc at line %d' % self.line"}[spec['str']]
     body += ['  def __str__(self):', f'    return {expr}']
   if spec['repr']:
     body += ['  def __repr__(self):', "    return 'UExc<custom repr>'"]
@@ -437,6 +464,8 @@ def render_user(spec):
     cargs.append(f'kw={spec["kwv"]!r}')
   ctor = f'UExc({", ".join(cargs)})'
   post = [f'e.{a} = {v!r}' for a, v in spec['post']]
+  if spec['str'] == 'needs':
+    post.append('e.line = None')
   if not inside:
     post = [a.replace('self.', 'e.', 1) for a in assigns] + post
   return '\n'.join(body) + '\n', ctor, post
@@ -445,7 +474,7 @@ def render_user(spec):
 # ----------------------------------------------------------------------------- chains
 SCOPES = ['', 'zsa', 'zsa/zsb']
 LINK_SCOPES = ['', '', 'zm']
-MUTATIONS = ['args', 'field', 'slot', 'dict']
+MUTATIONS = ['args', 'field', 'slot', 'dict', 'strstate']
 _plain_link = st.builds(lambda k, s: {'kind': k, 'scope': s},
                         st.sampled_from(['call', 'call', 'ref']), st.sampled_from(LINK_SCOPES))
 # 'catch': a call link whose body catches what comes from below, changes public state of the
@@ -453,7 +482,7 @@ _plain_link = st.builds(lambda k, s: {'kind': k, 'scope': s},
 _catch_link = st.builds(
     lambda s, m, r: {'kind': 'catch', 'scope': s, 'mut': sorted(m), 'reraise': r},
     st.sampled_from(LINK_SCOPES),
-    st.lists(st.sampled_from(MUTATIONS), min_size=0, max_size=4, unique=True),
+    st.lists(st.sampled_from(MUTATIONS + ['strstate']), min_size=0, max_size=4, unique=True),
     st.sampled_from(['bare', 'bare', 'named', 'from']))
 _link = st.one_of(_plain_link, _plain_link, _plain_link, _catch_link)
 
@@ -507,6 +536,9 @@ def _chain(draw):
       'scope': draw(st.sampled_from(SCOPES)),
       'cause': draw(st.sampled_from([False, False, False, True, True, 'none'])),
       'note': draw(st.integers(0, 3)) == 0,
+      # where the state read by a custom __str__ is changed AFTER the exception crossed the
+      # configurable(s): in a plain (non-Gin) frame above them that re-raises, by the final caller
+      'late': draw(st.sampled_from([[], [], ['plain'], ['caller'], ['caller', 'plain']])),
       'twin': draw(st.integers(0, 2)) == 0,
       'origin': 'gen',
   }
@@ -572,7 +604,7 @@ def sweep_builtins(tier):
   return cases, True
 
 
-def plain_user_spec(bases, argv=(), **kw):
+def plain_user_spec(bases=('Exception',), argv=(), **kw):
   spec = {'user': True, 'bases': list(bases), 'group': False, 'n': len(argv), 'kwonly': False,
           'new': None, 'init': None, 'store': False, 'slots': [], 'attrs': [], 'post': [],
           'cattrs': [], 'props': ['fields'], 'str': None, 'repr': False, 'argv': list(argv),
@@ -640,8 +672,29 @@ def sweep_signatures(tier):
   return cases, True
 
 
+def sweep_late_str(tier):
+  """User classes whose __str__ reads instance state ('state') or cannot render until a field
+  is filled in ('needs'), with that state changed after the exception crossed the
+  configurable(s): in a catching configurable body, in a plain frame above, by the caller."""
+  del tier
+  call, ref = {'kind': 'call', 'scope': ''}, {'kind': 'ref', 'scope': ''}
+  body = {'kind': 'catch', 'scope': '', 'mut': ['strstate'], 'reraise': 'bare'}
+  body2 = {'kind': 'catch', 'scope': 'zm', 'mut': ['dict', 'strstate'], 'reraise': 'named'}
+  cases = []
+  for kind in ('state', 'needs'):
+    for shape in (dict(bases=['Exception']), dict(bases=['OSError'], slots=['sa'], repr=True)):
+      for late in ([], ['plain'], ['caller'], ['caller', 'plain']):
+        for n, links in enumerate(([], [call], [body], [call, body2], [body, ref], [body2, body])):
+          cases.append({'exc': plain_user_spec(argv=('u', 3), init='all', store=True, str=kind,
+                                               **shape),
+                        'site': 'fn', 'how': 'configurable', 'mhow': 'register', 'links': links,
+                        'inter': ('fn', 'cls')[n % 2], 'scope': ('', 'zsa/zsb')[n % 2],
+                        'cause': False, 'late': late, 'origin': 'sweep'})
+  return cases, True
+
+
 SWEEPS = {'builtin-classes': sweep_builtins, 'mi-ordered-pairs': sweep_mi_pairs,
-          'brace-reprs': sweep_reprs, 'signatures': sweep_signatures}
+          'brace-reprs': sweep_reprs, 'signatures': sweep_signatures, 'late-str': sweep_late_str}
 
 
 def build_chain(case):
@@ -657,7 +710,7 @@ def build_chain(case):
   if by_ref:
     callargs = ''
   # the raiser keeps the original object, its message and its public data as they are at the raise
-  raiser_body = ['e = _make()', "HOLD['e'] = e", "HOLD['str'] = str(e)",
+  raiser_body = ['e = _make()', "HOLD['e'] = e", "HOLD['str'] = _safe_str(e)",
                  "HOLD['data'] = _public_data(e)", "HOLD['scope'] = gin.current_scope_str()",
                  raise_stmt]
   if case.get('note'):
@@ -749,7 +802,12 @@ def build_chain(case):
       invoke[i] = f'pyfn{i}()'
       viaref[i] = 'x'
     out.append('')
-  out += ['def _entry():', f'  return {invoke[0]}', '']
+  if 'plain' in case.get('late', ()):
+    # a plain handler (no configurable) above the chain annotates the exception and re-raises
+    out += ['def _entry():', '  try:', f'    return {invoke[0]}',
+            '  except BaseException as exc:', '    _plain_frame(exc)', '    raise', '']
+  else:
+    out += ['def _entry():', f'  return {invoke[0]}', '']
   return '\n'.join(out), '\n'.join(bindings), inner, code_name
 
 
@@ -803,7 +861,24 @@ def mutate(e, kinds, level):
   if 'dict' in kinds:
     e.enriched = ['by-level', level]
     applied.add('dict')
+  if 'strstate' in kinds:
+    annotate(e, f'level-{level}')
+    applied.add('strstate')
   return sorted(applied)
+
+
+def annotate(e, where):
+  """Changes the instance state the generated state-reading __str__ methods look at."""
+  e.annot = f'annotated-by-{where}'
+  e.line = 7
+
+
+def safe_str(e):
+  """str(e), or None when the class's own __str__ cannot render the current state."""
+  try:
+    return str(e)
+  except Exception:  # pylint: disable=broad-except
+    return None
 
 
 def chain_fields(exc):
@@ -893,18 +968,46 @@ def check_case(case):
               'cause2': ArithmeticError('cause given by a re-raising body')}
   mod.gin = gin
   mod._public_data = public_data  # pylint: disable=protected-access
+  mod._safe_str = safe_str  # pylint: disable=protected-access
+  mod._annotate = annotate  # pylint: disable=protected-access
   levels = []      # one record per catching intermediate body, innermost first
 
   def _caught(obj, level, kinds, name):
     # what this body (the caller of the configurables below) caught, then what leaves it: the
     # exception object as re-raised is "the original" for the configurables further out
-    rec = {'seen': obj, 'seen_str': str(obj), 'seen_data': public_data(obj), 'name': name,
+    rec = {'seen': obj, 'seen_str': safe_str(obj), 'seen_data': public_data(obj), 'name': name,
            'seen_chain': chain_fields(obj)}
     rec['applied'] = mutate(obj, kinds, level)
-    rec.update(scope=gin.current_scope_str(), str=str(obj), data=public_data(obj))
+    rec.update(scope=gin.current_scope_str(), str=safe_str(obj), data=public_data(obj))
+    # independent of Gin: what the class itself renders for the original object right now
+    rec['late'] = late_message(obj)
+    levels.append(rec)
+
+  def late_message(obj):
+    """(str(obj), str(original), is the __str__ state of obj visible on the original) -- now."""
+    orig_obj = mod.HOLD['e']
+    # comparable only if every public attribute reads the same on both objects right now: a
+    # body that changed args / a C-level field / a slot changed it on the object it caught only,
+    # and which of the two states a rendering should show is not decided by the property
+    mine, theirs = public_data(obj), public_data(orig_obj)
+    visible = set(mine) == set(theirs) and all(
+        mine[a] is theirs[a] or mine[a] == theirs[a] for a in mine)
+    try:
+      rendered, error = str(obj), None
+    except Exception as ex:  # pylint: disable=broad-except
+      rendered, error = None, f'{type(ex).__name__}: {ex}'
+    return {'got': rendered, 'error': error, 'base': safe_str(orig_obj), 'visible': visible}
+
+  def _plain_frame(obj):
+    # a plain handler above all configurables: a caller of them, then a re-raiser
+    rec = {'plain': True, 'seen': obj, 'seen_str': safe_str(obj), 'seen_data': public_data(obj),
+           'name': 'the plain frame', 'seen_chain': chain_fields(obj), 'applied': []}
+    annotate(obj, 'plain-frame')
+    rec.update(data=public_data(obj), late=late_message(obj))
     levels.append(rec)
 
   mod._caught = _caught  # pylint: disable=protected-access
+  mod._plain_frame = _plain_frame  # pylint: disable=protected-access
   labels = set()
 
   # (1) the exception class and its factory -------------------------------------------------
@@ -987,7 +1090,7 @@ def check_case(case):
       require(got is e, 'non-Exception-not-passed-through',
               lambda: f'{where}: raised {short(e)} ({cls.__name__}), caught {short(got)} of '
                       f'{type(got).__mro__}\n{describe()}')
-      require(got_str == ref_str, 'passthrough-message-changed',
+      require(ref_str is None or got_str == ref_str, 'passthrough-message-changed',
               lambda: f'{where}: {got_str!r} != {ref_str!r}')
     else:
       require(isinstance(got, cls) and cls in type(got).__mro__, 'not-same-class',
@@ -1001,16 +1104,22 @@ def check_case(case):
                         f'object is an instance of the unrelated, equally named class '
                         f'{twin_cls!r} (id {id(twin_cls):#x}) that was raised earlier; mro '
                         f'{type(got).__mro__}\n{describe()}')
-      require(got_str.startswith(ref_str), 'message-prefix',
-              lambda: f'{where}: str(original)={ref_str!r}; str(caught)={got_str!r}\n'
-                      f'{describe()}')
-      ext = got_str[len(ref_str):]
-      require(ref_name in ext, 'configurable-not-named',
-              lambda: f'{where}: extension {ext!r} does not name {ref_name!r}\n{describe()}')
-      if ref_scope:
-        require(ref_scope in ext, 'scope-not-named',
-                lambda: f'{where}: extension {ext!r} does not name the active scope '
-                        f'{ref_scope!r}\n{describe()}')
+      # ref_str is None when the class could not render its state at that point, or when the
+      # state was changed after the reference was taken (then check_late decides the message)
+      if ref_str is not None:
+        require(got_str is not None, 'message-unrenderable',
+                lambda: f'{where}: the original rendered {ref_str!r}, str() of the caught object '
+                        f'raises\n{describe()}')
+        require(got_str.startswith(ref_str), 'message-prefix',
+                lambda: f'{where}: str(original)={ref_str!r}; str(caught)={got_str!r}\n'
+                        f'{describe()}')
+        ext = got_str[len(ref_str):]
+        require(ref_name in ext, 'configurable-not-named',
+                lambda: f'{where}: extension {ext!r} does not name {ref_name!r}\n{describe()}')
+        if ref_scope:
+          require(ref_scope in ext, 'scope-not-named',
+                  lambda: f'{where}: extension {ext!r} does not name the active scope '
+                          f'{ref_scope!r}\n{describe()}')
     for name in sorted(ref_data):
       v = ref_data[name]
       try:
@@ -1039,17 +1148,55 @@ def check_case(case):
   cause = case.get('cause')
   chain = (mod.HOLD['cause'] if cause is True else None, cause in (True, 'none'),
            ['note added at the raise site'] if case.get('note') else None)
-  catch_links = [l for l in reversed(case['links']) if l['kind'] == 'catch']
-  for rec, link in zip(levels, catch_links):
-    where = f"in the body of {rec['name']}"
+  def check_late(late, where, named):
+    """The message against what the class itself renders for the ORIGINAL object at the same
+    moment (independent of Gin), after the state read by __str__ was changed above the
+    configurable(s); `named` = (name, scope) of every configurable that has augmented so far."""
+    if not late['visible'] or late['base'] is None:
+      labels.add('late-message:not-comparable')   # state not shared / still not renderable
+      return
+    base = late['base']
+    require(late['got'] is not None, 'late-message-unrenderable',
+            lambda: f"{where}: the original renders {base!r}; str() of the caught object raises "
+                    f"{late['error']}\n{describe()}")
+    if not isinstance(e, Exception):
+      require(late['got'] == base, 'passthrough-message-changed', f"{late['got']!r} != {base!r}")
+      return
+    require(late['got'].startswith(base), 'late-message-prefix',
+            lambda: f"{where}: the original now renders {base!r}; the caught object renders "
+                    f"{late['got']!r}\n{describe()}")
+    ext = late['got'][len(base):]
+    for nm, sc in named:
+      require(nm in ext and (not sc or sc in ext), 'late-message-trailer',
+              lambda: f'{where}: extension {ext!r} does not name {nm!r} / scope {sc!r}\n'
+                      f'{describe()}')
+    labels.add('late-message:checked')
+
+  catch_links = iter([l for l in reversed(case['links']) if l['kind'] == 'catch'])
+  named = [(inner, scope)]
+  for rec in levels:
+    where = f"in the body of {rec['name']}" if not rec.get('plain') else 'in the plain frame'
     compare(ref, rec['seen'], rec['seen_str'], rec['seen_data'].__getitem__, where)
     compare_chain(chain, rec['seen_chain'], where)
+    check_late(rec['late'], where + ' (after its changes)', named)
+    if rec.get('plain'):
+      ref = (None, rec['data'], ref[2], ref[3])   # message: check_late at the caller
+      continue
     ref = (rec['str'], rec['data'], rec['scope'], rec['name'])
-    if link.get('reraise') == 'from':
+    named.append((rec['name'], rec['scope']))
+    if next(catch_links).get('reraise') == 'from':
       chain = (mod.HOLD['cause2'], True, chain[2])
   scope = ref[2]
-  compare(ref, e2, str(e2), lambda name: getattr(e2, name), 'at the caller')
+  compare(ref, e2, safe_str(e2), lambda name: getattr(e2, name), 'at the caller')
   compare_chain(chain, chain_fields(e2), 'at the caller')
+  check_late(late_message(e2), 'at the caller', named)
+  if 'caller' in case.get('late', ()):
+    # the final caller completes the exception before rendering it
+    annotate(e2, 'caller')
+    labels.add('late:caller')
+    check_late(late_message(e2), 'at the caller (after its changes)', named)
+  if 'plain' in case.get('late', ()):
+    labels.add('late:plain-frame')
   if isinstance(e, Exception):
     labels.add('augmented' if e2 is not e else 'same-object')
   else:
@@ -1168,6 +1315,13 @@ def check_case(case):
       labels.add('user:class-attrs')
     if exc['str']:
       labels.add('user:custom-str')
+    if exc['str'] == 'state':
+      labels.add('user:str-reads-state')
+    if exc['str'] == 'needs':
+      labels.add('user:str-needs-field')
+    if exc['str'] in ('state', 'needs') and (case.get('late') or any(
+        'strstate' in r['applied'] for r in levels)):
+      labels.add('str-state-changed-after-crossing')
     if exc['repr']:
       labels.add('user:custom-repr')
     if len(exc['bases']) > 1:
@@ -1178,6 +1332,6 @@ def check_case(case):
       labels.add('user:group-subclass')
   if case.get('origin') == 'sweep':
     # keep the user-class floors honest: they count generated classes only
-    labels = {l.replace('user:', 'mi-sweep:', 1) if l.startswith('user:') else l for l in labels}
+    labels = {l.replace('user:', 'sweep-user:', 1) if l.startswith('user:') else l for l in labels}
   sys.modules.pop(PROBE, None)
   return ok(labels, nontrivial)
